@@ -549,6 +549,96 @@ def decoder_rules(run, r1, r2, f, aug):
             [a for a, _ in appended], {k: astq.aff_show(v) for k, v in numbering.items()}), where(appended[0][1]) if appended else where(body))
 
 
+def scratch_rules(run, rule, f):
+    """decoder scratch arrays (alloca): an array indexed by a method's position in the catalog has one entry per method, an array
+    indexed by a multi-method's rank one per multi-method; an extent counted over fewer elements than the index ranges over is
+    written / read beyond its end."""
+    body = f["body"]
+    where = lambda n: (f["file"], n["l"] if isinstance(n, dict) else f["line"])
+    byid, parent = astq.index_nodes(f)
+    decls = {d["did"]: d for n in astq.walk(body) if n.get("k") == "DeclStmt" for d in n["decls"]}
+
+    def refs(n, did):
+        return any(x.get("k") == "DeclRefExpr" and x["ref"].get("did") == did for x in astq.walk(n))
+
+    def in_methods_loop(n):
+        """(loop, guarded-by-arity?) when n sits in a range-for over Policy::methods"""
+        x = parent.get(n["id"])
+        guarded = False
+        while x is not None:
+            if x.get("k") == "IfStmt" and mentions(x["cond"], "arity"):
+                guarded = True
+            if x.get("k") == "CXXForRangeStmt" and (astq.refname(x["range"]) or "").endswith("::methods"):
+                return x, guarded
+            x = parent.get(x["id"])
+        return None, guarded
+
+    def counter_class(did):
+        """'all' / 'multi' for an integer (or pointer) local advanced once per method / per multi-method; None otherwise"""
+        cls = set()
+        for n in astq.walk(body):
+            if n.get("k") == "UnaryOperator" and n.get("op") in ("++",) and astq.strip(n["c"][0]).get("k") == "DeclRefExpr" and astq.strip(n["c"][0])["ref"].get("did") == did:
+                lp, guarded = in_methods_loop(n)
+                if lp is None:
+                    return None
+                cls.add("multi" if guarded else "all")
+        return cls.pop() if len(cls) == 1 else None
+    arrays = {}
+    for did, d in decls.items():
+        init = d.get("init")
+        if init is None:
+            continue
+        al = [x for x in astq.walk(init) if x.get("k") == "CallExpr" and (x.get("callee") or "").endswith("alloca")]
+        if not al:
+            continue
+        cnt = [x["ref"]["did"] for x in astq.walk(al[0]) if x.get("k") == "DeclRefExpr" and x["ref"].get("storage") == "local" and x["ref"].get("did") in decls]
+        cc = [x for x in (counter_class(c) for c in cnt) if x]
+        arrays[did] = (d, cc[0] if len(cc) == 1 else None)
+    if len([a for a in arrays.values() if a[1]]) < 3:
+        run.broken.append("decode_dispatch_data: scratch arrays sized by a method / multi-method count not recognised (%d)" % len(arrays))
+        return
+    # aliases: iterators initialised from an array
+    alias = {}
+    for did, d in decls.items():
+        init = astq.strip(d.get("init")) if d.get("init") is not None else None
+        if init is not None and init.get("k") == "DeclRefExpr" and init["ref"].get("did") in arrays:
+            alias[did] = init["ref"]["did"]
+    for adid, (ad, ext) in sorted(arrays.items()):
+        if ext is None:
+            continue
+        need = set()
+        sites = []
+        for n in astq.walk(body):
+            # arr[idx]
+            if n.get("k") == "ArraySubscriptExpr" and astq.strip(n["c"][0]).get("k") == "DeclRefExpr" and astq.strip(n["c"][0])["ref"].get("did") == adid:
+                idx = astq.strip(n["c"][1])
+                ic = None
+                if idx.get("k") == "DeclRefExpr" and idx["ref"].get("did") in decls:
+                    ic = counter_class(idx["ref"]["did"])
+                    if ic is None:
+                        # a method index read from the encoded stream, or a loop variable bounded by a count
+                        init = decls[idx["ref"]["did"]].get("init")
+                        ic = "all"       # any method's position may come out of the encoded data
+                        for lp in [x for x in astq.walk(body) if x.get("k") == "ForStmt" and x.get("cond") is not None]:
+                            if refs(lp["cond"], idx["ref"]["did"]):
+                                bnd = [y["ref"]["did"] for y in astq.walk(lp["cond"]) if y.get("k") == "DeclRefExpr" and y["ref"].get("did") in decls and y["ref"]["did"] != idx["ref"]["did"]]
+                                bc = [counter_class(b) for b in bnd]
+                                if len(bc) == 1 and bc[0]:
+                                    ic = bc[0]
+                need.add(ic or "all")
+                sites.append(n)
+            # *it++ with it an iterator over arr
+            if n.get("k") == "UnaryOperator" and n.get("op") == "++" and astq.strip(n["c"][0]).get("k") == "DeclRefExpr" and alias.get(astq.strip(n["c"][0])["ref"].get("did")) == adid:
+                lp, guarded = in_methods_loop(n)
+                need.add("multi" if (lp is not None and guarded) else "all")
+                sites.append(n)
+        ok = not (ext == "multi" and "all" in need)
+        run.instance(rule, "decode_dispatch_data: scratch array `%s` (one entry per %s) covers the positions it is indexed with (%s)" % (
+            ad["name"], "method" if ext == "all" else "multi-method", ", ".join(sorted("every method" if x == "all" else "multi-methods" for x in need)) or "unused"), where(sites[0]) if sites else where(body), ok=ok)
+        if not ok:
+            run.violation(rule, "decode_dispatch_data|scratch|%s" % ("multi-for-all"), "scratch array `%s` has one entry per multi-method but is indexed by a method's position among all methods: a multi-method declared after uni-methods writes beyond the array" % ad["name"], where(sites[0]) if sites else where(body))
+
+
 def check(run):
     r1, r2 = "C13-extent", "C13-cells"
     run.rule(r1, "declared extents = decoder reads/writes as affine per-method / per-class / per-entry counts; equivalent branch predicates", floor=10)
@@ -568,6 +658,7 @@ def check(run):
             encoder_rules(run, r1, r2, f)
         for f in decs:
             decoder_rules(run, r1, r2, f, augs[0])
+            scratch_rules(run, r1, f)
     run.assumptions += ["compiler invariants slots.size() == arity and strides.size() == arity - 1 (augment_methods / build_dispatch_tables) are taken as given",
                         "headroom (in-place decoding never overtakes unread input) depends on run-time sizes: not decided"]
     return run.finish(level="other", explanation="AST rules over the instantiated encoder, decoder and augment_methods: contributions to each declared extent as affine "
